@@ -939,6 +939,13 @@ class Interp:
                 if s.finalbody:
                     self.exec_block(s.finalbody, env)
             return
+        if isinstance(s, ast.With):
+            for item in s.items:
+                v = self.eval(item.context_expr, env)
+                if item.optional_vars is not None:
+                    self.assign(item.optional_vars, v, env)
+            self.exec_block(s.body, env)
+            return
         if isinstance(s, ast.Pass):
             return
         if isinstance(s, ast.Break):
@@ -1571,6 +1578,25 @@ class Interp:
             return Lst([self.call_value(args[0], [x], {}) for x in self.iterate(args[1])])
         if n in ("typing.cast", "cast"):
             return args[1]
+        if n in ("io.open", "open"):
+            # virtual file system (self.vfs: path -> text); nothing on disk is touched
+            path = args[0]
+            mode = args[1] if len(args) > 1 else kwargs.get("mode", "r")
+            vfs = self.__dict__.setdefault("vfs", {})
+            if not isinstance(path, str) or not isinstance(mode, str):
+                raise Undecided("open() of a symbolic path")
+            if "w" in mode:
+                vfs[path] = ""
+
+                def write(I_, text, path=path):
+                    if not isinstance(text, str):
+                        raise Undecided("write() of a non-concrete text: %r" % (text,))
+                    vfs[path] += text
+                    return None
+                return MockObj({"write": PyFunc(write)}, "file:" + path)
+            if path not in vfs:
+                raise PyRaise("FileNotFoundError", node)
+            return MockObj({"read": PyFunc(lambda I_, path=path: vfs[path])}, "file:" + path)
         if n in ("math.isclose",):
             return self.equal(args[0], args[1], node)
         if n in ("copy.deepcopy", "copy.copy"):
